@@ -367,3 +367,52 @@ def eval_doc(rng, weights, depth=3, nfeat=(0, 3)):
         except Exception:
             pass
     return doc
+
+
+# ------------------------------------------------------------------ small-scope exhaustive enumeration (thorough tier)
+
+def enum_trees(budget, atoms, keys, max_list=2, _memo=None):
+    """Every tree with at most `budget` nodes: atoms, lists of up to `max_list` entries, maps over `keys`
+    (each key absent or present).  Deterministic order.  Used as ADDITIONAL correspondence, never as the proof."""
+    memo = {} if _memo is None else _memo
+    key = (budget, tuple(map(repr, atoms)), tuple(keys), max_list)
+    if key in memo:
+        return memo[key]
+    out = []
+    if budget >= 1:
+        out += list(atoms)
+        # lists
+        out.append([])
+        if budget >= 2:
+            for n in range(1, max_list + 1):
+                for combo in _enum_seq(budget - 1, n, atoms, keys, max_list, memo):
+                    out.append(list(combo))
+            # maps
+            out.append({})
+            for r in range(1, len(keys) + 1):
+                from itertools import combinations
+                for ks in combinations(keys, r):
+                    for combo in _enum_seq(budget - 1, r, atoms, keys, max_list, memo):
+                        out.append(dict(zip(ks, combo)))
+        else:
+            out.append({})
+    memo[key] = out
+    return out
+
+
+def _enum_seq(budget, n, atoms, keys, max_list, memo):
+    """all n-tuples of trees whose node counts sum to at most `budget`"""
+    if n == 0:
+        return [()]
+    if budget < n:
+        return []
+    res = []
+    for first_budget in range(1, budget - (n - 1) + 1):
+        firsts = [t for t in enum_trees(first_budget, atoms, keys, max_list, memo) if size(t) == first_budget]
+        if not firsts:
+            continue
+        rests = _enum_seq(budget - first_budget, n - 1, atoms, keys, max_list, memo)
+        for f in firsts:
+            for r in rests:
+                res.append((f,) + r)
+    return res
